@@ -65,8 +65,10 @@ def make_ops(rng, cfg, profile, tier):
             ops.append({'op': 'ESTIMATE', 'a': [rng.choice(ALGOS), rng.choice([0, 0, 2, 3])]})
         elif r < 0.84:
             ops.append({'op': 'GET', 'a': []})
-        elif r < 0.87:
+        elif r < 0.86:
             ops.append({'op': 'RANDOM_INIT', 'a': [rng.choice([1.5, 3.0, 0.75])]})
+        elif r < 0.87:
+            ops.append({'op': 'SHARED_BETAS', 'a': [rng.randrange(4)]})
         elif r < 0.93:
             ops.append({'op': 'FIX', 'a': [rng.randrange(64), round(rng.uniform(-1, 1), 2),
                                            rng.choice([None, None, 'prefix', 'suffix'])]})
@@ -289,6 +291,39 @@ class Session:
                 kids = u.ll.get_children()
                 if kids:
                     kids[0].get_value_c(database=u.db, aggregation=True, prepare_ids=True)
+                    # derivatives of a PART of the formula reported by name while the numbering of the whole formula is in
+                    # force: each entry belongs to the parameter it is labelled with (checked against finite differences
+                    # of the same part, by name)
+                    pt = {u.nm(n): v for n, v in self.values(x).items() if self.store[n]['free']}
+                    # preferably a part that does not hold every free parameter of the formula
+                    from biogeme.expressions import TypeOfElementaryExpression as _T
+                    kid, queue = kids[-1], list(kids)
+                    while queue:
+                        c_ = queue.pop(0)
+                        inside = set(c_.set_of_elementary_expression(_T.FREE_BETA))
+                        if inside and inside < set(pt) and c_.get_children():
+                            kid = c_
+                            self.ctx.probe('part of a bound formula that lacks some of its parameters')
+                            break
+                        queue += list(c_.get_children())
+                    for f_ in u.b.formulas.values():
+                        f_.set_id_manager(u.b.id_manager)
+                    out = kid.get_value_and_derivatives(betas=pt, database=u.db, aggregation=True, prepare_ids=False,
+                                                        named_results=True, gradient=True, hessian=False, bhhh=False)
+                    for nm_, g_ in out.gradient.items():
+                        if nm_ not in pt:
+                            continue
+                        h_ = 1e-6 * max(1.0, abs(pt[nm_]))
+                        up, dn = dict(pt), dict(pt)
+                        up[nm_] += h_
+                        dn[nm_] -= h_
+                        fd_ = (float(kid.get_value_c(database=u.db, betas=up, aggregation=True, prepare_ids=False)) -
+                               float(kid.get_value_c(database=u.db, betas=dn, aggregation=True, prepare_ids=False))) / (2 * h_)
+                        if abs(float(g_) - fd_) > 1e-4 * max(1.0, abs(fd_)):
+                            self.ctx.fail('I03.named', f'derivative of a part of the formula reported for {nm_}: {float(g_)!r}, '
+                                                       f'finite differences with respect to {nm_} give {fd_!r} '
+                                                       f'(all entries: {dict(out.gradient)})')
+                    self.ctx.probe('derivatives of a part of a bound formula reported by name')
                 v1 = float(u.ll.get_value_c(database=u.db, betas={u.nm(n): v for n, v in x.items()}, aggregation=True,
                                             prepare_ids=False))
                 v2 = float(u.ll.get_value_c(database=u.db, betas={u.nm(n): v for n, v in over.items()}, aggregation=True,
@@ -491,6 +526,49 @@ class Session:
                             ctx.fail('I03.partial', f'fix_betas({n}) changed the status of {m} ({u.nm(m)})')
                 self.check_store('fix_betas')
                 ctx.log(kind, n, v)
+        elif kind == 'SHARED_BETAS':
+            # two models on one table that SHARE parameter objects; the shared parameter has another alphabetical rank in
+            # each model. Values given by name to one model reach the parameters of that name, whatever was built or
+            # simulated in between
+            import biogeme.biogeme as bio
+            import biogeme.database as db
+            import biogeme.expressions as ex
+            from biogeme.parameters import Parameters
+            order = a[0]
+            sh = ex.Beta('sh_b', 0.1, None, None, 0)
+            c_ = ex.Beta('sh_c', 0.2, None, None, 0)
+            a_ = ex.Beta('sh_a', 0.3, None, None, 0)
+            x0 = ex.Variable('x0')
+            f1 = sh * 2.0 + c_ * x0 + 1
+            f2 = a_ * 3.0 - sh * x0 + 2
+            d_ = db.Database('shared', self.table.copy())
+            xs = [float(v) for v in self.table['x0'].to_list()]
+            v1 = {'sh_b': 0.75, 'sh_c': -1.5}
+            v2 = {'sh_a': 2.0, 'sh_b': -0.25}
+            want1 = [v1['sh_b'] * 2.0 + v1['sh_c'] * x_ + 1 for x_ in xs]
+            want2 = [v2['sh_a'] * 3.0 - v2['sh_b'] * x_ + 2 for x_ in xs]
+
+            def obj(f):
+                p = Parameters()
+                p.set_value('save_iterations', False)
+                p.set_value('number_of_threads', self.cfg['threads'])
+                return bio.BIOGEME(d_, {'p': f}, parameters=p)
+
+            def sim(b, vals, want, what):
+                keys = sorted(vals, reverse=bool(order % 2))
+                got = [float(v) for v in b.simulate({k_: vals[k_] for k_ in keys})['p'].to_list()]
+                for i_, (g_, w_) in enumerate(zip(got, want)):
+                    if abs(g_ - w_) > 1e-12 * max(1.0, abs(w_)):
+                        ctx.fail('I03.shared', f'{what}: row {i_}: {g_!r}, with the values given by name it is {w_!r}')
+            b1 = obj(f1)
+            if order >= 2:
+                sim(b1, v1, want1, 'first model, simulated before the second one is built')
+            b2 = obj(f2)
+            sim(b1, v1, want1, 'first model, simulated after a second model sharing one of its parameters was built')
+            sim(b2, v2, want2, 'second model (shares a parameter object with the first one)')
+            sim(b1, v1, want1, 'first model again')
+            ctx.probe('two models sharing a parameter object')
+            ctx.log(kind, order)
         elif kind == 'RANDOM_INIT':
             # random starting values: each parameter's value is drawn inside ITS OWN bounds (a missing bound is replaced
             # by +/- the given number); fixed parameters are untouched; then the stored values are written back by name
